@@ -17,13 +17,21 @@ import (
 func VerifC14PurgeE2E() {
 	vBudget(800000000)
 	vUnwind(400000)
-	w := vNewPurgeWorld()
+	extra := 0
+	if vThorough() {
+		extra = vChoose("extraFiles", 3) // more keys in the second bundle: more chunks
+	}
+	w := vNewPurgeWorldN(extra)
 	stores := vCtxStoresAll(w.meta, w.meta, w.blob)
 	chunk := uint64(vChoose("chunkSize", 3) + 1)
 	if vThorough() && vChoose("bigChunk", 2) == 1 {
 		chunk = 1000
 	}
-	par := vChoose("parallel", 2) + 1
+	npar := 2
+	if vThorough() {
+		npar = 3
+	}
+	par := vChoose("parallel", npar) + 1
 	vNextSecond()
 	idx, err := PurgeBuildReverseIndex(stores, append([]PurgeOption{WithPurgeLogger(zap.NewNop()), WithPurgeLocalStore(vKVDir("kv-build")), WithPurgeIndexChunkSize(chunk), WithPurgeParallel(par)}, w.extraOpts()...)...)
 	vAssert(err == nil, "index-build-succeeds")
